@@ -1,4 +1,5 @@
-#!/usr/bin/env python3
+#!/venv/bin/python
+# (run with /venv/bin/python: the code under test uses Python 3.12 syntax)
 """Mechanical mutants (a measurement, not a check): tools/ast_mutants.py [--n 40] [--seed 1] [--out FILE]
 
 Small syntactic changes of the code under test - a comparison operator flipped, `+ 1` / `- 1` on an integer constant, an `and`
